@@ -230,6 +230,30 @@ def build(tier, seed, known):
                 "return prefix_intact(stack, prefix, snap)"]
         src += fn_src("m_" + name, ", ".join(params), pres, body)
         plan.obs.append(Ob("m_" + name, "modifier", "m", "m_" + name, 90, "confirmed", "modifier program %s on argument kinds %s: prefix untouched" % (prog, kinds or "-"), "prefix 0..%d sentinel lists (symbolic count); int arguments unbounded, list arguments len<=2" % maxp))
+    # thorough: every monadic modifier applied to every function-template element (the element function is a spy inside the lambda)
+    if tier == "thorough":
+        for key, info in table.items():
+            if not info["syntax_ok"] or info["fn"] is None or info["arity"] not in (1, 2) or key in WHOLE_STACK or key in ("Ė", "Q", "□", "¨U"):
+                continue
+            k = info["arity"]
+            for mod in ("v", "~", "ß", "&"):
+                if mod == "&" and k != 1:
+                    continue
+                nm = "x_%s_%s" % ({"v": "vec", "~": "tilde", "ß": "cond", "&": "reg"}[mod], ident(key))
+                src += "CODE_%s = T.transpile(%r)\n" % (nm, mod + key)
+                if mod == "v":
+                    args = "[a0]" if k == 1 else "[a0, 5]"
+                elif mod == "~":
+                    args = "[a0]" if k == 1 else "[3, 4]"
+                elif mod == "ß":
+                    args = "[3, 1]" if k == 1 else "[3, 4, 1]"
+                else:
+                    args = "[]"
+                body = ["prefix = [[100 + i, 200 + i] for i in range(n)]", "snap = [list(p) for p in prefix]", "ctx = Context(); stack = list(prefix) + %s; ctx.stacks.append(stack)" % args,
+                        "ns = fresh_ns(ctx, stack); calls = []", "ns[%r] = make_spy(%r, calls)" % (info["fn"], info["fn"]), "try:", "    exec(CODE_%s, ns)" % nm, "    force_some(stack)", "except Exception as e:", "    return prefix_intact(stack, prefix, snap) and note('raised', type(e).__name__)",
+                        "return prefix_intact(stack, prefix, snap)"]
+                src += fn_src(nm, "n: int, a0: List[int]", ["0 <= n <= 3", "len(a0) <= 2"], body)
+                plan.obs.append(Ob(nm, "modifier_x_element", "m", nm, 60, "confirmed", "modifier %s applied to element %s (spy): prefix untouched" % (mod, key), "prefix 0..3 sentinel lists, list argument len<=2"))
     # twins
     src += fn_src("twin_add", "n: int, rev: bool, a0: List[int], a1: List[int]", ["0 <= n <= 2", "len(a0) <= 2", "len(a1) <= 2"],
                   ["prefix = [[100 + i, 200 + i] for i in range(n)]", "ok = c09_plain('+', ['add'], prefix, [a0, a1], rev, 'add')", "return ok and len(prefix) < 2"])
